@@ -21,10 +21,13 @@ MODE = {"exposure": "MExposure", "seq": "MSeq", "dask": "MDask"}
 
 TRUSTED = [
     "translator/c19.py (mkdir retry-loop shape and exist_ok flag; exists-behaviour of every to_*/write_to_* writer; "
-    "the format dispatch tables of save_to_files and Outputs.save_to_file; extension templates) - fails closed",
+    "the format dispatch tables of save_to_files and Outputs.save_to_file; extension templates; build_filenames reads "
+    "only self.save_data_to_file; first-item/all-items and replace/merge shape of Outputs.save_to_file; the outputs "
+    "argument of run_pipeline in Observation._run_single_pipeline; the outputs entry of the dask kwargs) - fails closed",
     "correspondence harness: harness/props/c19.py generators, harness/drivers/c19.py (frozen datetime installed from "
     "outside, gated Path.mkdir for forced interleavings, pre-population wrapper around create_output_folder, file "
-    "decoding into integer tokens), probes/verif_probes_c19.py",
+    "decoding into integer tokens, histories on one running-mode object with in-place / assigned edits), "
+    "probes/verif_probes_c19.py",
     "modelled, not verified: atomicity of os.mkdir (one attempt = one step of the interleaving semantics), "
     "numpy/astropy/PIL/pandas file codecs, xarray construction of the /output node, dask scheduling",
 ]
@@ -287,6 +290,43 @@ def gen_hist(r, mode, scheduler="threads", deferred=False, snapshot=False):
     return c
 
 
+def gen_hist_exhaustive(modes, both_ways, snapshot, scheduler="threads"):
+    """Small-scope enumeration: run, ONE edit, run — for every kind of edit (in place and by assignment), every
+    mode; for the parallel observation also start, edit, start, compute, compute."""
+    base = [[("image", ["fits", "npy"]), ("pixel", ["npy"])], [("signal", ["npy"])]]
+    edits = [
+        dict(op="set", req=[[("charge", ["npy"])]]),
+        dict(op="append_dict", dict=[("photon", ["npy"])]),
+        dict(op="remove_dict", i=1),
+        dict(op="set_bucket", i=0, b="charge", fmts=["fits"]),
+        dict(op="set_bucket", i=0, b="image", fmts=["npy"]),
+        dict(op="remove_bucket", i=0, b="pixel"),
+        dict(op="append_fmt", i=0, b="pixel", f="fits"),
+        dict(op="remove_fmt", i=0, b="image", f="fits"),
+        dict(op="folder", name="B"),
+        dict(op="prefix", name="foo_"),
+    ]
+    out = []
+    for mode in modes:
+        nruns = 1 if mode == "exposure" else 2
+        for e in edits:
+            ways = [True, False] if (both_ways and e["op"] not in ("set", "folder", "prefix")) else [True]
+            for inplace in ways:
+                ed = dict(e) if e["op"] in ("set", "folder", "prefix") else dict(e, inplace=inplace)
+                shapes = [[["run", nruns, []], ["edit", ed], ["run", nruns, []]]]
+                if mode == "dask" and (snapshot or e["op"] in ("folder", "prefix")):
+                    shapes.append([["start", nruns, []], ["edit", ed], ["start", nruns, []], ["compute", 0],
+                                   ["compute", 1]])
+                for ops in shapes:
+                    c = dict(kind="hist", mode=mode, ts=TS, nruns=nruns,
+                             cfg=dict(req=[[(b, list(fl)) for b, fl in d] for d in base], folder="A", prefix=""),
+                             world=[["A/run_" + TS, ["keep.txt"]]], ops=ops)
+                    if mode == "dask":
+                        c["scheduler"] = scheduler
+                    out.append(c)
+    return out
+
+
 def sims_of(c):
     """Python mirror of OutputsHist.sims (description of failing cases only)."""
     cur, out, ep = c["cfg"], [], 0
@@ -384,6 +424,9 @@ def gen_all(ctx: Ctx, salt: str, scale: int = 1):
     scheds = ["threads"] if q else ["threads", "synchronous", "threads"]
     for k in range(scale * (10 if q else 45)):
         cases.append(gen_flow(r, "dask", scheds[k % len(scheds)]))
+    if salt == "cases":
+        cases += (gen_hist_exhaustive(["exposure"], False, snapshot) if q
+                  else gen_hist_exhaustive(["exposure", "seq", "dask"], True, snapshot))
     rh = ctx.rng(salt + "/hist")
     for k in range(scale * (10 if q else 60)):
         cases.append(gen_hist(rh, "exposure"))
@@ -688,6 +731,83 @@ def dir_violation(c, o) -> Violation:
                      sig=dict(clause=clause, how=c.get("how", c["kind"])))
 
 
+def _valid_hist(c) -> bool:
+    """Do the edits of the history still apply (python mirror), and do the computes name lazy starts?"""
+    try:
+        cur, kinds = c["cfg"], []
+        for o in c["ops"]:
+            if o[0] == "edit":
+                e = o[1]
+                if e["op"] in ("remove_fmt", "append_fmt", "remove_bucket"):
+                    if not any(b == e["b"] for b, _ in cur["req"][e["i"]]):
+                        return False
+                if e["op"] == "set_bucket" and e["i"] >= len(cur["req"]):
+                    return False
+                cur = py_apply_edit(cur, e)
+            elif o[0] in ("run", "start"):
+                kinds.append(o[0])
+            elif o[0] == "compute":
+                if o[1] >= len(kinds) or kinds[o[1]] != "start":
+                    return False
+                kinds[o[1]] = "done"
+        return any(o[0] in ("run", "start") for o in c["ops"])
+    except Exception:  # noqa: BLE001
+        return False
+
+
+def _drop_op(c, k):
+    """The history without operation k (compute indices renumbered when a simulation is dropped)."""
+    import copy
+
+    c2 = copy.deepcopy(c)
+    o = c2["ops"].pop(k)
+    if o[0] in ("run", "start"):
+        idx = sum(1 for x in c["ops"][:k] if x[0] in ("run", "start"))
+        ops = []
+        for x in c2["ops"]:
+            if x[0] == "compute":
+                if x[1] == idx:
+                    continue
+                if x[1] > idx:
+                    x = ["compute", x[1] - 1]
+            ops.append(x)
+        c2["ops"] = ops
+    return c2
+
+
+def shrink_hist(ctx: Ctx, v: Violation, rounds: int = 5) -> Violation:
+    """Greedy one-step reductions of a failing history (drop an operation, a pre-populated file, a foreign
+    directory), each candidate run against implementation and specification again; keeps the clause."""
+    import copy
+
+    best = v
+    for _ in range(rounds):
+        c = best.case
+        cands = [_drop_op(c, k) for k in range(len(c["ops"]))]
+        for k, o in enumerate(c["ops"]):
+            if o[0] in ("run", "start") and o[2]:
+                c2 = copy.deepcopy(c)
+                c2["ops"][k][2] = []
+                cands.append(c2)
+        if c["world"]:
+            c2 = copy.deepcopy(c)
+            c2["world"] = []
+            cands.append(c2)
+        cands = [x for x in cands if _valid_hist(x) and size_of(x) < size_of(c)]
+        if not cands:
+            break
+        saved = list(ctx.broken)
+        try:
+            _, _, viols = evaluate(ctx, cands, "shr")
+        finally:
+            ctx.broken[:] = saved
+        same = [w for w in viols if w.clause == best.clause and w.sig.get("cause") == best.sig.get("cause")]
+        if not same:
+            break
+        best = min(same, key=lambda w: size_of(w.case))
+    return best
+
+
 def size_of(c):
     return len(json.dumps(c))
 
@@ -815,6 +935,8 @@ def run(ctx: Ctx):
         "os.mkdir is atomic: one mkdir attempt is one step of the interleaving semantics",
         "an explicit refusal (NotImplementedError for hdf/txt/csv/png in save_to_files, FileExistsError) is not "
         "counted as a missing file; it must leave existing files untouched",
+        "a simulation is judged against the request / folder / prefix in force when run_mode was called for it; an "
+        "edit in place and the assignment of an edited copy mean the same",
         "the deprecated exposure_mode/_run_exposure_pipeline_deprecated path (apply_run_number with glob) is outside "
         "the model",
     ]
@@ -847,7 +969,10 @@ def finish_cov(ctx, by_kind, mism):
                        "least two simulations and one edit in between")
     ctx.cov["traces_validated_against_impl"] = sum(len(v) for k, v in by_kind.items() if k in HAS_MODEL)
     ctx.cov["disagreements_checked"] = len(mism)
-    ctx.cov["exhaustive"] = False
+    ctx.cov["exhaustive"] = ("histories [run, one edit, run] over the 10 kinds of edit: exposure, in place"
+                             if ctx.quick else
+                             "histories [run, one edit, run] over the 10 kinds of edit, in place and by assignment, in "
+                             "exposure / sequential / parallel observation, plus [start, edit, start, compute, compute]")
     for kind, pairs in by_kind.items():
         if pairs:
             c, o = pairs[len(pairs) // 2]
@@ -855,7 +980,17 @@ def finish_cov(ctx, by_kind, mism):
 
 
 def record(ctx: Ctx, mism, viols):
-    ctx.violations += order_violations(viols)
+    viols = order_violations(viols)
+    fs = core.load_findings(ctx.prop)
+    shrunk, done = [], set()
+    for v in viols:
+        k = (v.clause, v.sig.get("mode"), v.sig.get("cause"), v.sig.get("deferred"))
+        if (v.case.get("kind") == "hist" and k not in done and len(done) < 3
+                and not any(core.finding_matches(e, v) for e in fs)):
+            done.add(k)
+            v = shrink_hist(ctx, v)
+        shrunk.append(v)
+    ctx.violations += shrunk
     (ctx.build / "mismatches.json").write_text(json.dumps([dict(case=c, observed=o) for c, o in mism], indent=1))
     for c, o in mism[:20]:
         ctx.broken.append(Broken("correspondence", "Model/Outputs.v vs implementation",
@@ -933,26 +1068,34 @@ META = dict(
         "that was not there, within |fs|+1 attempts, for every finite file system; for every interleaving of N "
         "concurrent creators (same timestamp or not) the returned directories are pairwise distinct and none "
         "pre-existed, and no creator fails more than |fs|+N times; both file-name renderings are injective on "
-        "(bucket, run suffix, extension); with the writer behaviour table regenerated from outputs/utils.py, every "
-        "writer except the ones without an existence test leaves existing files untouched and so do the exposure and "
-        "parallel-observation flows; in a directory without colliding names every reported file holds the bucket of "
-        "the run it is attributed to; exactly one reported file per requested (bucket, format, run). The full "
-        "statements that the unchanged tree refutes (to_txt/to_csv/to_hdf overwrite; the new writers skip an existing "
-        "file silently yet its name is reported; sequential observation saves only the first entry of each dict) stay "
-        "visible with proved witnesses and are known findings. That the model is the code is established by "
-        "correspondence, i.e. by testing: with the timestamp frozen, sequential starts, forced interleavings of gated "
-        "mkdir attempts, unsynchronised thread/process starts, every writer on existing/absent targets, and complete "
-        "exposure / sequential / dask observation runs with pre-populated colliding names are executed; listing, byte "
-        "preservation, the /output node and the decoded content of every npy/fits file are compared with the model "
-        "and judged against the specification inside Coq."),
+        "(bucket, run suffix, extension); with the writer behaviour table and the flow-shape flags regenerated from "
+        "the source, every writer leaves existing files untouched and so do the exposure, parallel-observation and "
+        "sequential-observation flows (runs ending in an exception included); in ANY directory every reported file "
+        "holds the bucket of the run it is attributed to; the reported files are exactly one per requested (bucket, "
+        "format, run), under that combination's name, in all three flows. Histories on ONE configuration object, by "
+        "induction over the operation sequence Edit | Run | Start | Compute (edits of the request in place or by "
+        "assignment, of the folder and the prefix; lazily computed dask observations with an invariant over the "
+        "pending results): every simulation is exactly the standalone flow on the request, folder and prefix in "
+        "force when it STARTED, in a directory it created itself and nobody had, directories pairwise distinct, "
+        "every other directory unchanged at the end of the history, completeness / attribution / never-clobbered "
+        "per simulation. Each theorem discharges a boolean condition on the regenerated tables by vm_compute and "
+        "fails when the code stops meeting it. That the model is the code is established by correspondence, i.e. by "
+        "testing: with the timestamp frozen, sequential starts, forced interleavings of gated mkdir attempts, "
+        "unsynchronised thread/process starts, every writer on existing/absent targets, complete exposure / "
+        "sequential / dask observation runs with pre-populated colliding names, and histories of 2-4 simulations on "
+        "one running-mode object with edits in between (all three modes, deferred computes) are executed; listing, "
+        "byte preservation, the /output node and the decoded content of every npy/fits file (which carries the "
+        "simulation number) are compared with the model and judged against the specification inside Coq."),
     level_note=(
         "Trusted: Coq kernel + vm_compute; translator/c19.py; the correspondence harness and its wrappers (frozen "
-        "datetime, gated Path.mkdir, pre-population after create_output_folder). Not carried by the theorems: "
-        "atomicity of os.mkdir, the file codecs (numpy, astropy, PIL, pandas), xarray's construction of the /output "
-        "node, dask scheduling; h5py is absent so to_hdf is only translated, never executed; lossy formats (jpg, "
-        "jpeg, png) are checked for existence and validity only; the sequential-observation flow is modelled and "
-        "compared but its never-clobber/attribution theorems are not proved (only the refutation of completeness)."),
-    technique="Coq proof (interleaving semantics, injective rendering, regenerated writer table) + in-Coq "
-              "correspondence/spec evaluation against frozen-clock runs",
+        "datetime, gated Path.mkdir, pre-population after create_output_folder, one pipeline object per simulation). "
+        "Not carried by the theorems: atomicity of os.mkdir, the file codecs (numpy, astropy, PIL, pandas), xarray's "
+        "construction of the /output node, dask scheduling (for a parallel observation that fails, which other "
+        "runs' files were already written is not compared); h5py is absent so to_hdf is only translated, never "
+        "executed; lossy formats (jpg, jpeg, png) are checked for existence and validity only; the deprecated "
+        "exposure_mode path (apply_run_number with glob) is outside the model; the pipeline object a lazy dask "
+        "observation reads at compute time is C06's subject, not modelled here."),
+    technique="Coq proof (interleaving semantics, injective rendering, regenerated writer table and flow flags, "
+              "induction over operation sequences) + in-Coq correspondence/spec evaluation against frozen-clock runs",
     design_ref="DESIGN.md section 6, C19; section 7, F17",
 )
